@@ -265,8 +265,10 @@ def show(v: V) -> str:
     if isinstance(v, Dct):
         return (v.name or v.kind) + "{" + ", ".join(str(k) for k in v.entries) + (", ..." if v.open else "") + "}"
     if isinstance(v, Obj):
-        if v.oid == "B":
-            return "B"
+        import re as _re
+
+        if not _re.fullmatch(r"o\d+", v.oid):
+            return v.oid
         return f"<{v.cls.split('::')[-1]}#{v.oid}>"
     if isinstance(v, LinesRef):
         return f"<lines {v.bid}>"
